@@ -245,7 +245,12 @@ impl<'a, 'tcx> Cx<'a, 'tcx> {
                 }
             }
             ty::Ref(_, inner, _) if inner.is_str() => {
-                if let Const::Val(cv, _) = c {
+                let env = TypingEnv::post_analysis(tcx, self.did);
+                let cv_opt = match c {
+                    Const::Val(cv, _) => Some(*cv),
+                    _ => c.eval(tcx, env, rustc_span::DUMMY_SP).ok(),
+                };
+                if let Some(cv) = cv_opt {
                     if let ConstValue::Slice { .. } | ConstValue::Indirect { .. } = cv {
                         if let Some(b) = cv.try_get_slice_bytes_for_diagnostics(tcx) {
                             o.push(("str", s(String::from_utf8_lossy(b).to_string())));
